@@ -442,6 +442,18 @@ Proof.
   destruct infos; [congruence|]. destruct gs; [congruence|]. rewrite P. reflexivity.
 Qed.
 
+Lemma empty_tile_limit_l :
+  forall lname infos cb cont inter pt_in gs gs',
+    authorize_tile Ft_tile lname cb = T_ok gs -> gs <> [] -> cont gs = false -> inter gs = false ->
+    authorize_tile Ft_fi lname cb = T_ok gs' -> gs' <> [] -> pt_in gs' = false -> infos <> [] ->
+    tile_render lname cb cont inter = TO_empty /\ tile_loads (tile_render lname cb cont inter) = false /\
+    wmts_featureinfo lname infos cb pt_in = FI_ok [].
+Proof.
+  intros lname infos cb cont inter pt_in gs gs' H1 N1 C I H2 N2 P Hi.
+  destruct (tile_outside_empty_l lname cb cont inter gs H1 N1 C I) as [A B].
+  split; [exact A|]. split; [exact B|]. exact (wmts_fi_gate lname infos cb pt_in gs' H2 N2 P Hi).
+Qed.
+
 Lemma wmts_fi_denied : forall n infos r pt_in,
   r_kind r <> A_unauth -> permitted Ft_fi r n = false ->
   wmts_featureinfo n infos (Some r) pt_in = FI_403.
@@ -569,6 +581,25 @@ Proof.
     + assert (F : fast_path_ok o m true = false).
       { unfold fast_path_ok. cbn [negb]. rewrite andb_false_r. reflexivity. }
       rewrite F. cbn [snd]. exact G.
+    + cbn [snd]. exact G.
+Qed.
+
+(* an empty coverage is not "no coverage": every pixel lies outside its mask, nothing is visible *)
+Lemma merge_image_empty_coverage : forall o ms cols,
+  bg_ok o -> Forall (fun cb : column * bool => snd cb = true) cols ->
+  snd (merge_image o ms cols true) = map (fun _ => create_px o) cols.
+Proof.
+  intros o ms cols H F.
+  assert (G : map (fun cb : column * bool => merge_px o ms (fst cb) (if true then Some (snd cb) else None)) cols
+              = map (fun _ => create_px o) cols).
+  { induction F as [|[col b] l Hb F IH]; [reflexivity|]. cbn [map fst snd]. cbn [snd] in Hb. subst b.
+    rewrite merge_px_global_outside by exact H. rewrite IH. reflexivity. }
+  unfold merge_image. destruct ms as [|m ms'].
+  - reflexivity.
+  - destruct ms' as [|m2 ms''].
+    + assert (Fp : fast_path_ok o m true = false).
+      { unfold fast_path_ok. cbn [negb]. rewrite andb_false_r. reflexivity. }
+      rewrite Fp. cbn [snd]. exact G.
     + cbn [snd]. exact G.
 Qed.
 
